@@ -890,7 +890,32 @@ func (c *Ctx) checkPooledSlicesDisjoint(rule string) {
 	c.sawFunc(key)
 	n := 0
 	okAll := true
-	for _, lit := range fn.AnonFuncs {
+	// the allocators: the function literals of the constructor and the named functions of the
+	// package it passes along as values (func() T)
+	allocators := append([]*ssa.Function(nil), fn.AnonFuncs...)
+	seenAlloc := map[*ssa.Function]bool{}
+	for _, l := range allocators {
+		seenAlloc[l] = true
+	}
+	instrsOf(fn, func(in ssa.Instruction) {
+		for _, op := range in.Operands(nil) {
+			if op == nil || *op == nil {
+				continue
+			}
+			g, isFn := stripConv(*op).(*ssa.Function)
+			if !isFn || g.Blocks == nil || g.Pkg != fn.Pkg || seenAlloc[g] {
+				continue
+			}
+			if call, isCall := in.(ssa.CallInstruction); isCall && call.Common().Value == *op {
+				continue // called, not passed along
+			}
+			if g.Signature.Params().Len() == 0 && g.Signature.Results().Len() == 1 && g.Signature.Recv() == nil {
+				seenAlloc[g] = true
+				allocators = append(allocators, g)
+			}
+		}
+	})
+	for _, lit := range allocators {
 		rets := returnsOf(lit)
 		isSlice := false
 		for _, r := range rets {
